@@ -24,7 +24,8 @@ ASSUMPTIONS = ['ids, durations and timestamps are excluded from the comparison w
                'internal anchors _invoke_counter / _currently_in_interception are read only if they exist (otherwise the behavioural probe alone decides)']
 
 KINDS = ['success', 'raises', 'interrupt', 'interrupt_in_body', 'discarded', 'sampled_out', 'forced', 'handler_fault', 'key_fault', 'save_fails', 'kill_switch',
-         'replay_ok', 'replay_missing_id', 'replay_missing_key', 'replay_fn_raises', 'replay_fn_interrupted', 'replay_imported']
+         'replay_ok', 'replay_missing_id', 'replay_missing_key', 'replay_fn_raises', 'replay_fn_interrupted', 'replay_imported',
+         'noop_discard', 'double_discard', 'equal_hash_args']
 
 
 def hist_program(seed):
@@ -133,6 +134,24 @@ def do_element(ctx, sess, kind, seed, w):
         from vlib.history import replay_imported
         replay_imported(rec)
         return
+    if kind == 'noop_discard':
+        # a discard with nothing to discard: outside any operation (cleanup code, a signal handler, a request that was not recorded)
+        rec.discard_recording()
+        return
+    if kind == 'double_discard':
+        res = fr.execute(prog, {('main', 1): 'discard', ('main', 3): 'discard'}, recorder=rec, spy=sess.spy, box=sess.box, with_twin=False,
+                         built=sess.builts.get((seed, None)))
+        sess.builts[(seed, None)] = res.live
+        return
+    if kind == 'equal_hash_args':
+        # the very calls of the probe were made before on this recorder with arguments that are equal but of another type
+        # (1 / True / 1.0 compare and hash equal; their keys differ)
+        p2 = clone(hist_program(getattr(sess, 'pseed', seed)))
+        swap = random.Random(seed).choice([lambda v: bool(v) if v in (0, 1) else float(v), lambda v: float(v)])
+        for st in p2['body']:
+            st['args'] = [({'lit': swap(a['lit'])} if 'lit' in a and type(a['lit']) is int else a) for a in st['args']]
+        res = fr.execute(p2, {}, recorder=rec, spy=sess.spy, box=sess.box, with_twin=False)
+        return
     # replays
     if not sess.saved:
         res = fr.execute(prog, {}, recorder=rec, spy=sess.spy, box=sess.box, with_twin=False)
@@ -197,13 +216,38 @@ def run_history(ctx, kinds, which, kind_cassette, seed):
         setup = fr.execute(hist_program(seed + 999), {}, recorder=sess.rec, spy=sess.spy, box=sess.box, with_twin=False)
         src = ([e for e in setup.spy_events if e[0] == 'save'][0][2], hist_program(seed + 999))
         draws_before = len(sess.rec._random.draws)
+        sess.pseed = seed if which == 'record_rate0' else seed + 500
         for i, k in enumerate(kinds):
             do_element(ctx, sess, k, seed + (i % 2), w)
             ctx.count('history_elements')
             ctx.count('element_' + k)
             idle_check(ctx, sess.rec, w, k)
         pseed = seed if which == 'record_rate0' else seed + 500
-        got = probe(ctx, sess.rec, sess.spy, sess.box, which, pseed, src, builts=sess.builts)
+        if seed % 2 == 0:
+            got = probe(ctx, sess.rec, sess.spy, sess.box, which, pseed, src, builts=sess.builts)
+        else:
+            # the next request is served by another thread of the process than the history was
+            import threading
+            boxed = {}
+
+            def _probe():
+                try:
+                    boxed['got'] = probe(ctx, sess.rec, sess.spy, sess.box, which, pseed, src, builts=sess.builts)
+                except BaseException as ex:  # noqa
+                    boxed['err'] = ex
+            t = threading.Thread(target=_probe, daemon=True)
+            t.start()
+            t.join(30)
+            ctx.count('probes_on_another_thread')
+            if t.is_alive():
+                ctx.violation('probe (%s) on another thread after history %s did not finish within 30 s: the recorder blocks it' % (which, kinds), w)
+                ctx.count('probes_blocked')
+                if ctx.counters.get('probes_blocked', 0) >= 3:
+                    raise env.EnoughViolations()      # every further blocked probe would cost another 30 s
+                return
+            if 'err' in boxed:
+                raise boxed['err']
+            got = boxed['got']
         idle_check(ctx, sess.rec, w, 'probe ' + which)
         # the same probe on a fresh recorder over the same cassette contents
         spy2 = SpyCassette(sess.box.cassette)
